@@ -15,7 +15,7 @@ import sys
 from pathlib import Path
 from typing import IO, TYPE_CHECKING, List, Optional, Tuple
 
-from libcst import Module, parse_module
+from libcst import Import, ImportFrom, Module, SimpleStatementLine, parse_module
 from libcst.codemod import CodemodContext
 from libcst.codemod.visitors import (
     ApplyTypeAnnotationsVisitor,
@@ -154,9 +154,19 @@ def get_newly_imported_items(
     stub_module.visit(gatherer)
     stub_imports = list(gatherer.symbol_mapping.values())
 
+    # Only the imports the source executes at module level count as existing:
+    # an import inside a function or under `if TYPE_CHECKING:` is not available
+    # at run time, so the same import coming from the stub is still new and
+    # must not be left at module level.
     context = CodemodContext()
     gatherer = GatherImportsVisitor(context)
-    source_module.visit(gatherer)
+    for statement in source_module.body:
+        if isinstance(statement, SimpleStatementLine):
+            for node in statement.body:
+                if isinstance(node, Import):
+                    gatherer.visit_Import(node)
+                elif isinstance(node, ImportFrom):
+                    gatherer.visit_ImportFrom(node)
     source_imports = list(gatherer.symbol_mapping.values())
 
     return list(set(stub_imports).difference(set(source_imports)))
